@@ -192,7 +192,7 @@ def tlc(module, cfg, wd, workers=None, xmx="4g", extra=(), env=None, timeout=180
     """Run TLC on spec/<module>.tla with spec/<cfg>. Returns TlcResult."""
     tag = tag or (module + "_" + os.path.basename(cfg).replace(".cfg", ""))
     meta = os.path.join(wd, "meta_" + tag + "_%d" % random.randrange(1 << 30))
-    cmd = ["java", "-XX:+UseParallelGC", "-Xss128m", "-Xmx" + xmx, "-cp", TLAJARS, "tlc2.TLC",
+    cmd = ["java", "-Djava.io.tmpdir=" + wd, "-XX:+UseParallelGC", "-Xss128m", "-Xmx" + xmx, "-cp", TLAJARS, "tlc2.TLC",
            "-workers", str(workers or min(NCPU, 8)), "-metadir", meta, "-noGenerateSpecTE",
            "-config", os.path.join(SPEC, cfg)]
     if not deadlock:
@@ -343,10 +343,13 @@ class Check:
         ev = {"property_id": self.pid, "tier": self.tier, "seed": self.seed, "level": self.level,
               "coverage": cov, "assumptions": self.assumptions, "wall_s": round(time.time() - self.t0, 2),
               "violations": len(self.violations), "known_findings_hit": self.known_hits, "notes": self.notes}
-        os.makedirs(os.path.join(VERIF, "evidence"), exist_ok=True)
-        with open(os.path.join(VERIF, "evidence", self.pid + ".json"), "w") as f:
-            json.dump(ev, f, indent=1, sort_keys=True)
-            f.write("\n")
+        # evidence describes runs against /repo itself: runs against a scratch tree (seeded changes) or seed sweeps leave it alone
+        scratch_tree = os.path.realpath(os.environ.get("CELLO_REPO", "/repo")) != os.path.realpath("/repo")
+        if not scratch_tree and not os.environ.get("VERIF_NOEVIDENCE"):
+            os.makedirs(os.path.join(VERIF, "evidence"), exist_ok=True)
+            with open(os.path.join(VERIF, "evidence", self.pid + ".json"), "w") as f:
+                json.dump(ev, f, indent=1, sort_keys=True)
+                f.write("\n")
         print("%s %s: %s (%.1fs) states=%s traces=%s evals=%s distinct=%s" % (
             self.pid, self.tier, "VIOLATED" if self.violations else "held", time.time() - self.t0,
             cov.get("states"), cov.get("traces_validated_against_impl"), cov.get("evaluations"),
